@@ -173,3 +173,352 @@ Fixpoint r_check (s : rstate) (steps : list (rop * robs)) : bool :=
     resolved id (ids are creation indices on both sides). *)
 Definition ok_resource (c : Z * list (rop * robs)) : bool :=
   r_check (r_init (fst c)) (snd c).
+
+(* ================================================================== *)
+(** * Blocking generators of sync/*  (after the repair of the spin waits)
+
+    [acquire()] is a generator.  Its first step either takes the lock and
+    yields [0.0] ([YDelay0]; the next resume returns) or enqueues a waiter and
+    yields a SimFuture ([YPark]).  The release that pops the waiter calls its
+    callback (flag := True, future resolved: reported in [woken]); the engine
+    then resumes the generator ([...Resume] operation), which leaves the
+    [while not acquired[0]] loop and finishes ([YDone]).  A resume whose flag is
+    not set would park again ([YPark]).  *)
+Inductive ykind := YDelay0 | YPark | YDone | YErr | YTrue | YFalse | YWoken (ids : list Z).
+
+Definition ykind_code (y : ykind) : Z * list Z :=
+  match y with
+  | YDelay0 => (0, []) | YPark => (1, []) | YDone => (2, []) | YErr => (3, [])
+  | YTrue => (4, []) | YFalse => (5, []) | YWoken l => (6, l)
+  end.
+
+(** Generic observation of one traced step: (result code, woken ids, counters). *)
+Definition sobs := (Z * list Z * list Z)%type.
+Definition sobs_eqb (a b : sobs) : bool :=
+  let '(c1, w1, k1) := a in let '(c2, w2, k2) := b in
+  (c1 =? c2) && zlist_eqb w1 w2 && zlist_eqb k1 k2.
+Definition mk_sobs (y : ykind) (k : list Z) : sobs := (fst (ykind_code y), snd (ykind_code y), k).
+
+Fixpoint assoc_find (c : Z) (l : list (Z * Z)) : option Z :=
+  match l with [] => None | (i, v) :: r => if i =? c then Some v else assoc_find c r end.
+Fixpoint assoc_remove (c : Z) (l : list (Z * Z)) : list (Z * Z) :=
+  match l with [] => [] | (i, v) :: r => if i =? c then r else (i, v) :: assoc_remove c r end.
+Fixpoint zremove (c : Z) (l : list Z) : list Z :=
+  match l with [] => [] | i :: r => if i =? c then r else i :: zremove c r end.
+Definition zmem (c : Z) (l : list Z) : bool := existsb (Z.eqb c) l.
+Definition b2z (b : bool) : Z := if b then 1 else 0.
+
+(* ------------------------------------------------------------------ *)
+(** ** Mutex  (components/sync/mutex.py) *)
+Record mstate := {
+  m_locked : bool;                 (* _locked *)
+  m_owner : Z;                     (* _owner; -1 = None *)
+  m_waiters : list (Z * Z);        (* _waiters: client, enqueue time *)
+  m_woken : list (Z * Z);          (* callbacks fired, generator not resumed yet: client, enqueue time *)
+  m_acq : Z; m_cont : Z; m_rel : Z; m_wait : Z;
+  m_cs : list Z;                   (* ghost: clients whose acquire completed and who have not released *)
+}.
+Definition m_init : mstate :=
+  {| m_locked := false; m_owner := -1; m_waiters := []; m_woken := []; m_acq := 0; m_cont := 0;
+     m_rel := 0; m_wait := 0; m_cs := [] |}.
+
+Inductive mop :=
+| MTry (c : Z)                     (* try_acquire(owner=c) *)
+| MAcqStart (c now : Z)            (* first step of acquire(owner=c) *)
+| MAcqResume (c now : Z)           (* resume of a parked acquire *)
+| MRelease (c now : Z).            (* release() called by client c *)
+
+Definition m_try (s : mstate) (c : Z) : mstate * bool :=
+  if m_locked s then (s, false)
+  else ({| m_locked := true; m_owner := c; m_waiters := m_waiters s; m_woken := m_woken s;
+           m_acq := m_acq s + 1; m_cont := m_cont s; m_rel := m_rel s; m_wait := m_wait s;
+           m_cs := c :: m_cs s |}, true).
+
+Definition m_step (s : mstate) (o : mop) : mstate * ykind :=
+  match o with
+  | MTry c => let '(s', b) := m_try s c in (s', if b then YTrue else YFalse)
+  | MAcqStart c now =>
+      let '(s', b) := m_try s c in
+      if b then (s', YDelay0)
+      else ({| m_locked := m_locked s; m_owner := m_owner s; m_waiters := m_waiters s ++ [(c, now)];
+               m_woken := m_woken s; m_acq := m_acq s; m_cont := m_cont s + 1; m_rel := m_rel s;
+               m_wait := m_wait s; m_cs := m_cs s |}, YPark)
+  | MAcqResume c now =>
+      match assoc_find c (m_woken s) with
+      | None => (s, YPark)
+      | Some enq =>
+          ({| m_locked := m_locked s; m_owner := c; m_waiters := m_waiters s;
+              m_woken := assoc_remove c (m_woken s); m_acq := m_acq s + 1; m_cont := m_cont s;
+              m_rel := m_rel s; m_wait := m_wait s + (now - enq); m_cs := c :: m_cs s |}, YDone)
+      end
+  | MRelease c now =>
+      if negb (m_locked s) then (s, YErr)
+      else match m_waiters s with
+           | (w, enq) :: rest =>
+               ({| m_locked := true; m_owner := -1; m_waiters := rest; m_woken := m_woken s ++ [(w, enq)];
+                   m_acq := m_acq s; m_cont := m_cont s; m_rel := m_rel s + 1; m_wait := m_wait s;
+                   m_cs := zremove c (m_cs s) |}, YWoken [w])
+           | [] =>
+               ({| m_locked := false; m_owner := -1; m_waiters := []; m_woken := m_woken s;
+                   m_acq := m_acq s; m_cont := m_cont s; m_rel := m_rel s + 1; m_wait := m_wait s;
+                   m_cs := zremove c (m_cs s) |}, YWoken [])
+           end
+  end.
+
+Fixpoint m_run (s : mstate) (ops : list mop) : mstate :=
+  match ops with [] => s | o :: r => m_run (fst (m_step s o)) r end.
+
+(** counters: [locked; owner; #waiters; acquisitions; contentions; releases; total_wait] *)
+Definition m_view (s : mstate) (y : ykind) : sobs :=
+  mk_sobs y [b2z (m_locked s); m_owner s; Z.of_nat (length (m_waiters s)); m_acq s; m_cont s; m_rel s; m_wait s].
+Fixpoint m_check (s : mstate) (steps : list (mop * sobs)) : bool :=
+  match steps with
+  | [] => true
+  | (o, ob) :: r => let '(s', y) := m_step s o in sobs_eqb (m_view s' y) ob && m_check s' r
+  end.
+Definition ok_mutex (c : list (mop * sobs)) : bool := m_check m_init c.
+
+(* ------------------------------------------------------------------ *)
+(** ** Semaphore  (components/sync/semaphore.py) *)
+
+(** The wake loop shared by Semaphore (and the same loop as [r_wake]): take
+    waiters from the head while they fit. Returns (available, woken, rest). *)
+Fixpoint q_wake (avail : Z) (ws : list rwaiter) : Z * list rwaiter * list rwaiter :=
+  match ws with
+  | [] => (avail, [], [])
+  | (id, amt, enq) :: rest =>
+      if avail >=? amt then
+        let '(a', pre, ws') := q_wake (avail - amt) rest in (a', (id, amt, enq) :: pre, ws')
+      else (avail, [], ws)
+  end.
+
+Record sstate := {
+  s_cap : Z; s_count : Z;
+  s_waiters : list rwaiter;        (* client, count, enqueue time *)
+  s_woken : list rwaiter;          (* callbacks fired, generator not resumed yet *)
+  s_acq : Z; s_rel : Z; s_cont : Z; s_wait : Z; s_peakw : Z;
+  s_out : Z;                       (* ghost: permits handed out (try/immediate/wake) and not released *)
+}.
+Definition s_init (cap : Z) : sstate :=
+  {| s_cap := cap; s_count := cap; s_waiters := []; s_woken := []; s_acq := 0; s_rel := 0;
+     s_cont := 0; s_wait := 0; s_peakw := 0; s_out := 0 |}.
+
+Inductive sop :=
+| STry (c k : Z)
+| SAcqStart (c k now : Z)
+| SAcqResume (c now : Z)
+| SRelease (k now : Z).
+
+Fixpoint w_find (c : Z) (l : list rwaiter) : option (Z * Z) :=
+  match l with [] => None | (i, k, e) :: r => if i =? c then Some (k, e) else w_find c r end.
+Fixpoint w_remove (c : Z) (l : list rwaiter) : list rwaiter :=
+  match l with [] => [] | (i, k, e) :: r => if i =? c then r else (i, k, e) :: w_remove c r end.
+
+Definition s_try (s : sstate) (k : Z) : option (sstate * bool) :=
+  if k <? 1 then None
+  else if s_count s >=? k then
+    Some ({| s_cap := s_cap s; s_count := s_count s - k; s_waiters := s_waiters s; s_woken := s_woken s;
+             s_acq := s_acq s + k; s_rel := s_rel s; s_cont := s_cont s; s_wait := s_wait s;
+             s_peakw := s_peakw s; s_out := s_out s + k |}, true)
+  else Some (s, false).
+
+Definition s_step (s : sstate) (o : sop) : sstate * ykind :=
+  match o with
+  | STry c k => match s_try s k with None => (s, YErr) | Some (s', b) => (s', if b then YTrue else YFalse) end
+  | SAcqStart c k now =>
+      if k <? 1 then (s, YErr)
+      else if k >? s_cap s then (s, YErr)
+      else match s_try s k with
+           | None => (s, YErr)
+           | Some (s', true) => (s', YDelay0)
+           | Some (_, false) =>
+               let ws := s_waiters s ++ [(c, k, now)] in
+               ({| s_cap := s_cap s; s_count := s_count s; s_waiters := ws; s_woken := s_woken s;
+                   s_acq := s_acq s; s_rel := s_rel s; s_cont := s_cont s + 1; s_wait := s_wait s;
+                   s_peakw := Z.max (s_peakw s) (Z.of_nat (length ws)); s_out := s_out s |}, YPark)
+           end
+  | SAcqResume c now =>
+      match w_find c (s_woken s) with
+      | None => (s, YPark)
+      | Some (k, enq) =>
+          ({| s_cap := s_cap s; s_count := s_count s; s_waiters := s_waiters s;
+              s_woken := w_remove c (s_woken s); s_acq := s_acq s + k; s_rel := s_rel s;
+              s_cont := s_cont s; s_wait := s_wait s + (now - enq); s_peakw := s_peakw s;
+              s_out := s_out s |}, YDone)
+      end
+  | SRelease k now =>
+      if k <? 1 then (s, YErr)
+      else if s_count s + k >? s_cap s then (s, YErr)
+      else
+        let '(a', pre, ws') := q_wake (s_count s + k) (s_waiters s) in
+        ({| s_cap := s_cap s; s_count := a'; s_waiters := ws'; s_woken := s_woken s ++ pre;
+            s_acq := s_acq s; s_rel := s_rel s + k; s_cont := s_cont s; s_wait := s_wait s;
+            s_peakw := s_peakw s;
+            s_out := s_out s - k + zsum (map (fun w => snd (fst w)) pre) |},
+         YWoken (map (fun w => fst (fst w)) pre))
+  end.
+
+Fixpoint s_run (s : sstate) (ops : list sop) : sstate :=
+  match ops with [] => s | o :: r => s_run (fst (s_step s o)) r end.
+
+(** counters: [available; waiter counts...] are split: k = [count; acq; rel; cont; wait; peak] and the waiter amounts *)
+Definition s_view (s : sstate) (y : ykind) : sobs :=
+  mk_sobs y ([s_count s; s_acq s; s_rel s; s_cont s; s_wait s; s_peakw s] ++ map (fun w => snd (fst w)) (s_waiters s)).
+Fixpoint s_check (s : sstate) (steps : list (sop * sobs)) : bool :=
+  match steps with
+  | [] => true
+  | (o, ob) :: r => let '(s', y) := s_step s o in sobs_eqb (s_view s' y) ob && s_check s' r
+  end.
+Definition ok_semaphore (c : Z * list (sop * sobs)) : bool := s_check (s_init (fst c)) (snd c).
+
+(* ------------------------------------------------------------------ *)
+(** ** RWLock  (components/sync/rwlock.py) *)
+Definition rw_waiter := (Z * bool * Z)%type.      (* client, is_writer, enqueue time *)
+
+Record rwstate := {
+  rw_max : option Z;               (* _max_readers *)
+  rw_readers : Z;                  (* _active_readers *)
+  rw_wlocked : bool;               (* _write_locked *)
+  rw_waiters : list rw_waiter;
+  rw_woken : list rw_waiter;
+  rw_racq : Z; rw_wacq : Z; rw_rrel : Z; rw_wrel : Z; rw_rcont : Z; rw_wcont : Z;
+  rw_rwait : Z; rw_wwait : Z; rw_peak : Z;
+  rw_rd : list Z; rw_wr : list Z;   (* ghost: clients holding a read / the write lock (granted, not released) *)
+}.
+Definition rw_init (mx : option Z) : rwstate :=
+  {| rw_max := mx; rw_readers := 0; rw_wlocked := false; rw_waiters := []; rw_woken := [];
+     rw_racq := 0; rw_wacq := 0; rw_rrel := 0; rw_wrel := 0; rw_rcont := 0; rw_wcont := 0;
+     rw_rwait := 0; rw_wwait := 0; rw_peak := 0; rw_rd := []; rw_wr := [] |}.
+
+Inductive rwop :=
+| RWTryR (c : Z) | RWTryW (c : Z)
+| RWAcqRStart (c now : Z) | RWAcqWStart (c now : Z)
+| RWResume (c now : Z)
+| RWRelR (c now : Z) | RWRelW (c now : Z).
+
+Definition is_writer (w : rw_waiter) : bool := snd (fst w).
+Definition has_waiting_writer (s : rwstate) : bool := existsb is_writer (rw_waiters s).
+(** [self._max_readers and self._active_readers >= self._max_readers] *)
+Definition readers_full (mx : option Z) (n : Z) : bool :=
+  match mx with None => false | Some m => negb (m =? 0) && (n >=? m) end.
+
+Definition rw_set (s : rwstate) (readers : Z) (wl : bool) (ws wk : list rw_waiter) (peak : Z) (rd wr : list Z) : rwstate :=
+  {| rw_max := rw_max s; rw_readers := readers; rw_wlocked := wl; rw_waiters := ws; rw_woken := wk;
+     rw_racq := rw_racq s; rw_wacq := rw_wacq s; rw_rrel := rw_rrel s; rw_wrel := rw_wrel s;
+     rw_rcont := rw_rcont s; rw_wcont := rw_wcont s; rw_rwait := rw_rwait s; rw_wwait := rw_wwait s;
+     rw_peak := peak; rw_rd := rd; rw_wr := wr |}.
+
+Definition rw_try_read (s : rwstate) (c : Z) : rwstate * bool :=
+  if rw_wlocked s then (s, false)
+  else if has_waiting_writer s then (s, false)
+  else if readers_full (rw_max s) (rw_readers s) then (s, false)
+  else ({| rw_max := rw_max s; rw_readers := rw_readers s + 1; rw_wlocked := rw_wlocked s;
+           rw_waiters := rw_waiters s; rw_woken := rw_woken s;
+           rw_racq := rw_racq s + 1; rw_wacq := rw_wacq s; rw_rrel := rw_rrel s; rw_wrel := rw_wrel s;
+           rw_rcont := rw_rcont s; rw_wcont := rw_wcont s; rw_rwait := rw_rwait s; rw_wwait := rw_wwait s;
+           rw_peak := Z.max (rw_peak s) (rw_readers s + 1); rw_rd := c :: rw_rd s; rw_wr := rw_wr s |}, true).
+
+Definition rw_try_write (s : rwstate) (c : Z) : rwstate * bool :=
+  if rw_wlocked s || (rw_readers s >? 0) then (s, false)
+  else ({| rw_max := rw_max s; rw_readers := rw_readers s; rw_wlocked := true;
+           rw_waiters := rw_waiters s; rw_woken := rw_woken s;
+           rw_racq := rw_racq s; rw_wacq := rw_wacq s + 1; rw_rrel := rw_rrel s; rw_wrel := rw_wrel s;
+           rw_rcont := rw_rcont s; rw_wcont := rw_wcont s; rw_rwait := rw_rwait s; rw_wwait := rw_wwait s;
+           rw_peak := rw_peak s; rw_rd := rw_rd s; rw_wr := c :: rw_wr s |}, true).
+
+(** Reader part of [_wake_waiters]: wake readers from the head until a writer
+    or the reader limit.  Returns (readers, woken, rest, peak). *)
+Fixpoint rw_wake_readers (mx : option Z) (readers peak : Z) (ws : list rw_waiter)
+  : Z * list rw_waiter * list rw_waiter * Z :=
+  match ws with
+  | [] => (readers, [], [], peak)
+  | w :: rest =>
+      if is_writer w then (readers, [], ws, peak)
+      else if readers_full mx readers then (readers, [], ws, peak)
+      else let '(n, pre, ws', pk) := rw_wake_readers mx (readers + 1) (Z.max peak (readers + 1)) rest in
+           (n, w :: pre, ws', pk)
+  end.
+
+Definition rw_wake (s : rwstate) : rwstate * list Z :=
+  match rw_waiters s with
+  | [] => (s, [])
+  | front :: rest =>
+      if rw_wlocked s then (s, [])
+      else if is_writer front then
+        if rw_readers s =? 0 then (rw_set s (rw_readers s) true rest (rw_woken s ++ [front]) (rw_peak s) (rw_rd s) (fst (fst front) :: rw_wr s), [fst (fst front)])
+        else (s, [])
+      else
+        let '(n, pre, ws', pk) := rw_wake_readers (rw_max s) (rw_readers s) (rw_peak s) (rw_waiters s) in
+        (rw_set s n (rw_wlocked s) ws' (rw_woken s ++ pre) pk (map (fun w => fst (fst w)) pre ++ rw_rd s) (rw_wr s), map (fun w => fst (fst w)) pre)
+  end.
+
+Fixpoint rww_find (c : Z) (l : list rw_waiter) : option (bool * Z) :=
+  match l with [] => None | (i, k, e) :: r => if i =? c then Some (k, e) else rww_find c r end.
+Fixpoint rww_remove (c : Z) (l : list rw_waiter) : list rw_waiter :=
+  match l with [] => [] | (i, k, e) :: r => if i =? c then r else (i, k, e) :: rww_remove c r end.
+
+Definition rw_step (s : rwstate) (o : rwop) : rwstate * ykind :=
+  match o with
+  | RWTryR c => let '(s', b) := rw_try_read s c in (s', if b then YTrue else YFalse)
+  | RWTryW c => let '(s', b) := rw_try_write s c in (s', if b then YTrue else YFalse)
+  | RWAcqRStart c now =>
+      let '(s', b) := rw_try_read s c in
+      if b then (s', YDelay0)
+      else ({| rw_max := rw_max s; rw_readers := rw_readers s; rw_wlocked := rw_wlocked s;
+               rw_waiters := rw_waiters s ++ [(c, false, now)]; rw_woken := rw_woken s;
+               rw_racq := rw_racq s; rw_wacq := rw_wacq s; rw_rrel := rw_rrel s; rw_wrel := rw_wrel s;
+               rw_rcont := rw_rcont s + 1; rw_wcont := rw_wcont s; rw_rwait := rw_rwait s;
+               rw_wwait := rw_wwait s; rw_peak := rw_peak s; rw_rd := rw_rd s; rw_wr := rw_wr s |}, YPark)
+  | RWAcqWStart c now =>
+      let '(s', b) := rw_try_write s c in
+      if b then (s', YDelay0)
+      else ({| rw_max := rw_max s; rw_readers := rw_readers s; rw_wlocked := rw_wlocked s;
+               rw_waiters := rw_waiters s ++ [(c, true, now)]; rw_woken := rw_woken s;
+               rw_racq := rw_racq s; rw_wacq := rw_wacq s; rw_rrel := rw_rrel s; rw_wrel := rw_wrel s;
+               rw_rcont := rw_rcont s; rw_wcont := rw_wcont s + 1; rw_rwait := rw_rwait s;
+               rw_wwait := rw_wwait s; rw_peak := rw_peak s; rw_rd := rw_rd s; rw_wr := rw_wr s |}, YPark)
+  | RWResume c now =>
+      match rww_find c (rw_woken s) with
+      | None => (s, YPark)
+      | Some (wr, enq) =>
+          ({| rw_max := rw_max s; rw_readers := rw_readers s; rw_wlocked := rw_wlocked s;
+              rw_waiters := rw_waiters s; rw_woken := rww_remove c (rw_woken s);
+              rw_racq := rw_racq s + (if wr then 0 else 1); rw_wacq := rw_wacq s + (if wr then 1 else 0);
+              rw_rrel := rw_rrel s; rw_wrel := rw_wrel s; rw_rcont := rw_rcont s; rw_wcont := rw_wcont s;
+              rw_rwait := rw_rwait s + (if wr then 0 else now - enq);
+              rw_wwait := rw_wwait s + (if wr then now - enq else 0); rw_peak := rw_peak s;
+              rw_rd := rw_rd s; rw_wr := rw_wr s |}, YDone)
+      end
+  | RWRelR c now =>
+      if rw_readers s <? 1 then (s, YErr)
+      else
+        let s1 := {| rw_max := rw_max s; rw_readers := rw_readers s - 1; rw_wlocked := rw_wlocked s;
+                     rw_waiters := rw_waiters s; rw_woken := rw_woken s;
+                     rw_racq := rw_racq s; rw_wacq := rw_wacq s; rw_rrel := rw_rrel s + 1; rw_wrel := rw_wrel s;
+                     rw_rcont := rw_rcont s; rw_wcont := rw_wcont s; rw_rwait := rw_rwait s;
+                     rw_wwait := rw_wwait s; rw_peak := rw_peak s; rw_rd := zremove c (rw_rd s); rw_wr := rw_wr s |} in
+        let '(s2, wk) := rw_wake s1 in (s2, YWoken wk)
+  | RWRelW c now =>
+      if negb (rw_wlocked s) then (s, YErr)
+      else
+        let s1 := {| rw_max := rw_max s; rw_readers := rw_readers s; rw_wlocked := false;
+                     rw_waiters := rw_waiters s; rw_woken := rw_woken s;
+                     rw_racq := rw_racq s; rw_wacq := rw_wacq s; rw_rrel := rw_rrel s; rw_wrel := rw_wrel s + 1;
+                     rw_rcont := rw_rcont s; rw_wcont := rw_wcont s; rw_rwait := rw_rwait s;
+                     rw_wwait := rw_wwait s; rw_peak := rw_peak s; rw_rd := rw_rd s; rw_wr := zremove c (rw_wr s) |} in
+        let '(s2, wk) := rw_wake s1 in (s2, YWoken wk)
+  end.
+
+Fixpoint rw_run (s : rwstate) (ops : list rwop) : rwstate :=
+  match ops with [] => s | o :: r => rw_run (fst (rw_step s o)) r end.
+
+Definition rw_view (s : rwstate) (y : ykind) : sobs :=
+  mk_sobs y ([rw_readers s; b2z (rw_wlocked s); rw_racq s; rw_wacq s; rw_rrel s; rw_wrel s;
+              rw_rcont s; rw_wcont s; rw_rwait s; rw_wwait s; rw_peak s]
+             ++ map (fun w => b2z (is_writer w)) (rw_waiters s)).
+Fixpoint rw_check (s : rwstate) (steps : list (rwop * sobs)) : bool :=
+  match steps with
+  | [] => true
+  | (o, ob) :: r => let '(s', y) := rw_step s o in sobs_eqb (rw_view s' y) ob && rw_check s' r
+  end.
+Definition ok_rwlock (c : option Z * list (rwop * sobs)) : bool := rw_check (rw_init (fst c)) (snd c).
